@@ -6,7 +6,7 @@ out=seeded/MATRIX.tsv
 echo -e "seed\tproperty\tcheck_exit\tviolation_keys" > $out
 for d in seeded/C*-m*; do
   id=$(basename $d); prop=${id%%-*}
-  patch=$d/patch.diff; [ -f $d/patch_rebased.diff ] && patch=$d/patch_rebased.diff
+  patch=/verif/$d/patch.diff; [ -f /verif/$d/patch_rebased.diff ] && patch=/verif/$d/patch_rebased.diff
   if ! git -C /repo apply --check $patch 2>/dev/null; then
     echo -e "$id\t$prop\tn/a\tpatch does not apply to the fixed tree (see meta.json note)" >> $out; continue
   fi
